@@ -387,11 +387,47 @@ def raw_canon(cont: Cont):
 
     s = UUID_RE.sub(sub, s)
     s = re.sub(r"\d+", "#", s)
-    # in-memory component: an index rebuilt from disk (fresh after open) vs. maintained incrementally
-    extra = "inc" if getattr(cont, "dirty", False) else "fresh"
+    # in-memory component: an index rebuilt from disk (fresh after open) vs. maintained incrementally,
+    # plus the literal content of the index objects (two histories may reach the same files with different
+    # leftovers in memory, e.g. an emptied per-package entry) - only for deduplication, never for a verdict
+    extra = ("inc" if getattr(cont, "dirty", False) else "fresh") + _inmem_digest(cont.mc)
     if cont.driver != "h5":
         extra += f"{len(files)}{cont.raw._has_writable}"
     return hashlib.blake2b((s + extra).encode(), digest_size=16).digest()
+
+
+def _inmem_digest(mc) -> str:
+    parts = []
+    try:
+        toc = mc.metador
+    except Exception:
+        return "?"
+    for path in (("_links", "_toc_path"), ("_schemas", "_schemas"), ("_schemas", "_parents"), ("_schemas", "_children"), ("_schemas", "_used"), ("_packages", "_pkginfos"), ("_packages", "_providers")):
+        o = toc
+        for a in path:
+            o = getattr(o, a, None)
+            if o is None:
+                break
+        parts.append(_lit(o))
+    s = repr(parts)
+    idx = {}
+    s = UUID_RE.sub(lambda m: "U%d" % idx.setdefault(m.group(0), len(idx)), s)
+    return hashlib.blake2b(s.encode(), digest_size=8).hexdigest()
+
+
+def _lit(o):
+    if isinstance(o, dict):
+        return sorted(((_lit(k), _lit(v)) for k, v in o.items()), key=repr)
+    if isinstance(o, (set, frozenset)):
+        return sorted((_lit(x) for x in o), key=repr)
+    if isinstance(o, (list, tuple)):
+        return [_lit(x) for x in o]
+    if hasattr(o, "json") and callable(getattr(o, "json")):
+        try:
+            return o.json()
+        except Exception:
+            return repr(o)
+    return repr(o)
 
 
 def _rawdump(f):
